@@ -14,7 +14,7 @@ from .c04 import C04
 S = families.S
 PUSH_AB = ("push", ("alt", (S("a"), S("b"))))
 T_ST = (S("a"), PUSH_AB, ("pushlit", "b"), ("pop",), ("peek",), ("drop",), ("peekall",), ("popall",),
-        ("slice", None, 1), ("slice", -1, None), ("slice", 0, None), ("slice", 1, 2))
+        ("slice", None, 1), ("slice", -1, None), ("slice", 0, None), ("slice", 1, 2), ("slice", None, 0))
 U_ST = (("opt",), ("star",), ("and",), ("not",), ("grp",))
 PRES = {"none": (), "lit": (("pushlit", "a"),), "two": (PUSH_AB, PUSH_AB)}
 WRAPS = ("none", "alt", "opt", "star", "and", "not")
@@ -107,7 +107,7 @@ def run(tier: str) -> int:
         C05(), specs(tier), tier, "model_checking",
         bounds=[{"inner_size": k, "L": L, "alphabet": "ab", "pre": list(PRES), "wrappers": list(WRAPS), "failer": [False, True]}],
         rule="start rules PRE ~ W[INNER ~ FAILER] ~ PEEK_ALL ~ EOI: PRE in {nothing, PUSH_LITERAL(\"a\"), PUSH(\"a\"|\"b\") ~ PUSH(\"a\"|\"b\")}, INNER every expression with <= k nodes over "
-             "{\"a\", PUSH(\"a\"|\"b\"), PUSH_LITERAL(\"b\"), POP, PEEK, DROP, PEEK_ALL, POP_ALL, PEEK[..1], PEEK[-1..], PEEK[0..], PEEK[1..2]} with ? * & ! ( ) ~ |, W in {none, (. | \"\"), ?, *, &, !}, "
+             "{\"a\", PUSH(\"a\"|\"b\"), PUSH_LITERAL(\"b\"), POP, PEEK, DROP, PEEK_ALL, POP_ALL, PEEK[..1], PEEK[-1..], PEEK[0..], PEEK[1..2], PEEK[..0]} with ? * & ! ( ) ~ |, W in {none, (. | \"\"), ?, *, &, !}, "
              "FAILER in {nothing, a literal that cannot match}; x every string over {a,b} up to length L; four modes against the reference model (persistent stack: every abandoned attempt and every predicate is undone by construction). "
              "UNSPEC cases (PEEK/POP on an empty stack, out-of-range slice) are judged only by 'no exception other than PestParsingError'. Non-trivial: the reference run backtracked or returned pairs. "
              "The history-level half of the quantifier is C09's BFS over ParserState.checkpoint/ok/restore x push/drop.",
